@@ -1,7 +1,7 @@
 """C17 — the recommendation report shows exactly the filter's result.
 
 The real Markdown is parsed back into the structure the Lean model produces (buckets, sections,
-rows, summary) and compared with it; `-o stdout` is exercised through cli_recommend.cli_wrapper.
+rows, summary) and compared with it; `-o stdout` is compared as the set the CLI prints (`sorted(selected - hidden)`, computed here from the recommender; the print itself is exercised by c18.py).
 """
 import contextlib
 import copy
